@@ -100,12 +100,18 @@ class ModelShell:
     # -- rsync
     def rsync(self, args):
         excludes, pos = [], []
+        self.link_dest = None
+        self.checksum = False
         it = iter(args)
         for a in it:
             if a == '--exclude':
                 excludes.append(next(it))
             elif a.startswith('--exclude='):
                 excludes.append(a.split('=', 1)[1])
+            elif a.startswith('--link-dest='):
+                self.link_dest = a.split('=', 1)[1].rstrip('/')
+            elif a in ('--checksum', '-c'):
+                self.checksum = True
             elif a.startswith('-'):
                 assert a in ('-azh', '--no-whole-file', '--info=progress2,stats1', '--progress', '-vv') or a.startswith('--link-dest='), a
             else:
@@ -124,7 +130,7 @@ class ModelShell:
                 else:  # a single file to a non-existing destination: the destination IS the file name
                     self.copy_file(src, dest_dir)
                     return 0
-            self.copy_file(src, dest_dir + '/' + src.rsplit('/', 1)[1])
+            self.copy_file(src, dest_dir + '/' + src.rsplit('/', 1)[1], src.rsplit('/', 1)[1])
             return 0
         if src not in fs.dirs:
             return 23
@@ -146,16 +152,36 @@ class ModelShell:
             if src + '/' + f not in fs.files:
                 rc = 24  # "file has vanished": rsync reports a partial transfer
                 continue
-            self.copy_file(src + '/' + f, base + '/' + f)
+            self.copy_file(src + '/' + f, base + '/' + f, f if contents else src.rsplit('/', 1)[1] + '/' + f)
         return rc
 
-    def copy_file(self, src, dst):
+    def size_of(self, path, node):
+        """what rsync's quick check sees as the file size (index files: whole pages)"""
+        rows = self.w.db_file_rows(path, node)
+        if rows is not None:
+            return 4096 * (2 + len(rows) // 40)
+        return len(node.data) if node.text is None else len(node.text)
+
+    def copy_file(self, src, dst, rel=None):
         fs = self.fs
         node = fs.files[src]
+        if self.link_dest is not None and rel is not None:
+            # --link-dest: a file of the previous backup with the same size and modification time is hard-linked
+            # instead of being transferred (rsync's quick check; -a preserves the times of what it copies)
+            cand = fs.files.get(self.link_dest + '/' + rel)
+            if cand is not None and self.size_of(self.link_dest + '/' + rel, cand) == self.size_of(src, node):
+                if self.checksum:  # --checksum: the contents decide, not the modification time
+                    same = cand.dbrows == self.w.db_file_rows(src, node) and cand.text == node.text and cand.data == node.data
+                else:
+                    same = cand.mtime == node.mtime
+                if same:
+                    fs.files[dst] = cand
+                    return
         new = menv.Node(text=node.text)
         new.data = node.data
         new.synced = len(node.data)
         new.dbrows = self.w.db_file_rows(src, node)
+        new.mtime = node.mtime
         fs.files[dst] = new
 
 
@@ -179,6 +205,8 @@ class _Conn:
         rows = self.w.dbs[self.path].versions[-1]  # the online backup API sees every committed transaction
         node = menv.Node()
         node.dbrows = [dict(r) for r in rows]
+        # the dump is a new file: its modification time is "now", which rsync's quick check compares to the SECOND
+        node.mtime = ('second', self.w.second)
         self.w.fs.files[dst.path] = node
 
     def __enter__(self):
@@ -214,10 +242,30 @@ class _TempDir:
         return False
 
 
-class ModelWhich:
+class ModelShutilB:
+    """``shutil`` inside backup_utils: which() and the metadata copies"""
+
+    def __init__(self, fs):
+        self.fs = fs
+
     @staticmethod
     def which(exe):
         return '/usr/bin/' + exe
+
+    def copystat(self, src, dst, **kw):
+        a, b = self.fs.files.get(str(src)), self.fs.files.get(str(dst))
+        if a is None or b is None:
+            raise FileNotFoundError(str(src))
+        b.mtime = a.mtime
+
+    def copymode(self, src, dst, **kw):
+        pass
+
+    def copy2(self, src, dst, **kw):
+        node = self.fs.files[str(src)]
+        new = menv.Node(text=node.text)
+        new.data, new.synced, new.dbrows, new.mtime = node.data, len(node.data), node.dbrows, node.mtime
+        self.fs.files[str(dst)] = new
 
 
 class _Stamp:
@@ -256,7 +304,7 @@ def install_backup(world):
     B.subprocess = world.shell
     B.sqlite3 = ModelSqlite3(world)
     B.tempfile = ModelTempfile(world.fs)
-    B.shutil = ModelWhich
+    B.shutil = ModelShutilB(world.fs)
     B.Path = world.C.Path
     B.datetime = ModelDatetime
     B.random = ModelRandom
